@@ -5,6 +5,19 @@ Import ListNotations.
 Require Import Base.Wire Base.PyStr C18.Model C18.Aux.
 Require gen.T18.
 
+(* ---- the table facts the proofs rest on ---- *)
+Lemma table_log_safe : gen.T18.RUN_LOG_INTERPOLATES_NAME = false.
+Proof. reflexivity. Qed.
+
+(* run()'s except handler cannot raise, whatever the name of the event (str, tuple of any length, with % directives) *)
+Lemma handler_never_gen : gen.T18.RUN_LOG_INTERPOLATES_NAME = false -> forall n, handler_raises n = false.
+Proof. intros H n. unfold handler_raises. rewrite H. reflexivity. Qed.
+Lemma handler_never n : handler_raises n = false.
+Proof. apply handler_never_gen. exact table_log_safe. Qed.
+Lemma after_call_never n r : after_call n r = false.
+Proof. destruct r; [reflexivity|apply handler_never]. Qed.
+Arguments after_call : simpl never.
+
 Definition names (s : state) := map e_name (heap s).
 Definition keys (s : state) := map fst (events s).
 Definition hsids (s : state) := map e_sid (heap s).
@@ -279,7 +292,7 @@ Proof.
     destruct (take_key (e_name e) (events s)) as [[f ev']|] eqn:T.
     + pose proof (popped_inv _ _ _ _ _ _ _ I PM D T) as I1.
       pose proof (call_fn_inv f (e_args e) _ I1) as I2.
-      destruct (call_fn f (e_args e) (popped e r o bad ev' s)) as [s1 x]. apply IH. exact I2.
+      destruct (call_fn f (e_args e) (popped e r o bad ev' s)) as [s1 x]. rewrite ?after_call_never. apply IH. exact I2.
     + exfalso. apply take_key_none in T. apply T.
       eapply Permutation_in; [exact (i_names _ I)|]. apply in_map.
       eapply Permutation_in; [apply Permutation_sym; exact Hperm|left; auto].
@@ -301,7 +314,7 @@ Proof.
     destruct (take_key (e_name e) (events s)) as [[f ev']|] eqn:T.
     + pose proof (popped_inv _ _ _ _ _ _ _ I PM D T) as I1.
       pose proof (call_fn_inv f (e_args e) _ I1) as I2.
-      destruct (call_fn f (e_args e) (popped e r o bad ev' s)) as [s1 x]. apply IH. exact I2.
+      destruct (call_fn f (e_args e) (popped e r o bad ev' s)) as [s1 x]. rewrite ?after_call_never. apply IH. exact I2.
     + exfalso. apply take_key_none in T. apply T.
       eapply Permutation_in; [exact (i_names _ I)|]. apply in_map.
       eapply Permutation_in; [apply Permutation_sym; exact Hperm|left; auto].
